@@ -114,6 +114,7 @@ type Faults struct {
 	MaxSegs        int
 	LatGrid        int // >0: latencies are drawn from this many equidistant values
 	UDPWriteErrPct int // probability that a datagram write of the program fails (ENOBUFS) and nothing is sent
+	UDPBindErrPct  int // probability that the program's bind of a datagram socket to an ephemeral port fails (EMFILE)
 }
 
 type Net struct {
@@ -229,6 +230,11 @@ func (n *Net) bindUDP(laddr *net.UDPAddr, proxy bool) (*UDPSock, error) {
 	}
 	if ip != nil && ip.IsUnspecified() {
 		ip = nil
+	}
+	if port == 0 && proxy && pct(n.K, n.F.UDPBindErrPct) {
+		n.Fired["udp-bind-emfile"]++
+		n.event("udp-bind-error", "", "", 0, "emfile")
+		return nil, &net.OpError{Op: "listen", Net: "udp", Addr: laddr, Err: syscall.EMFILE}
 	}
 	if port == 0 {
 		port = n.ephemeral("udp/"+ip.String(), func(p int) bool { return n.udpInUse(ip, p) })
